@@ -1210,6 +1210,9 @@ func (b *boundedClient) tick(kind string) error {
 	b.n++
 	b.byKind[0]++
 	b.byKind[callKindIndex(kind)]++
+	if kind == "MatchingVersions:latest" {
+		b.byKind[callKindIndex("MatchingVersions")]++
+	}
 	if b.n > b.max {
 		b.over = true
 		return errBudget
@@ -1236,7 +1239,11 @@ func (b *boundedClient) Requirements(ctx context.Context, vk resolve.VersionKey)
 	return b.inner.Requirements(ctx, vk)
 }
 func (b *boundedClient) MatchingVersions(ctx context.Context, vk resolve.VersionKey) ([]resolve.Version, error) {
-	if err := b.tick("MatchingVersions"); err != nil {
+	kind := "MatchingVersions"
+	if vk.Version == "latest" {
+		kind = "MatchingVersions:latest"
+	}
+	if err := b.tick(kind); err != nil {
 		return nil, err
 	}
 	return b.inner.MatchingVersions(ctx, vk)
